@@ -205,6 +205,18 @@ impl WorkerPool {
         loop {
             if shutdown_flag.load(Ordering::Relaxed) {
                 tracing::debug!("TCP worker {worker_id} received shutdown signal");
+                // Packets accepted before the shutdown are still analysed
+                while let Ok(packet) = rx.try_recv() {
+                    if !Self::process_packet(
+                        &packet,
+                        &mut connection_tracker,
+                        matcher.as_ref(),
+                        &result_sender,
+                        filter_config.as_ref(),
+                    ) {
+                        break;
+                    }
+                }
                 break;
             }
 
